@@ -368,6 +368,26 @@ def shouldSample (s : St) (params : Params) (forced : Bool) : St × Bool :=
     let (s1, d) := draw s
     (s1, d.le params.rate)
 
+/-- the next PRNG draw -/
+def headDraw (s : St) : Q :=
+  match s.draws with
+  | [] => ⟨0, 1⟩
+  | d :: _ => d
+
+/-- the documented keep rule once a recording reaches the end of its scope: forced, or rate >= 1, or draw <= rate -/
+def keepDecision (forced : Bool) (params : Params) (d : Q) : Bool :=
+  forced || params.rate.geOne || d.le params.rate
+
+/-- a draw is consumed exactly when neither forcing nor a rate >= 1 decides -/
+def drawsUsed (forced : Bool) (params : Params) : Nat :=
+  if forced || params.rate.geOne then 0 else 1
+
+/-- `S3TapeCassette._should_sample`: no calculator keeps everything; otherwise the same rule on the calculator's ratio -/
+def s3ShouldSample (ratio : Option Q) (d : Q) : Bool :=
+  match ratio with
+  | none => true
+  | some r => r.geOne || d.le r
+
 /-- is there an output whose key contains the reserved operation alias?  (`OPERATION_OUTPUT_ALIAS in o.key`) -/
 def hasOpOutput (aliasContainsOp : String → Bool) : Data → Bool
   | [] => false
